@@ -3,7 +3,7 @@ from sim.cmd_scenario import CmdScenario
 
 PROP = "C16"
 LEVEL = "exploration"
-RUNS = {"quick": 2500, "thorough": 100000}
+RUNS = {"quick": 4000, "thorough": 100000}
 BUDGET_S = {"quick": 50, "thorough": 840}
 CHUNK = 50
 RULE = ('One evaluation = one seeded history with `gwf touch [targets]` under a clock that ticks between file operations (0-20 ticks per operation) on timestamp grids 1/1024..2 s, arbitrary initial file states (outputs older than inputs, missing intermediates), backward clock jumps before the command. Oracle: every cone output exists, pre-existing contents identical, nothing outside the cone changed (content and mtime), created files empty, hashes recorded, and a following `gwf status` shows every cone target with outputs completed unless a live/failed/cancelled job or a future-dated source excuses it. Sibling visiting order varies through the seeded Target hash.')
